@@ -7,4 +7,4 @@ mkdir -p $OUT
 git -C /repo worktree add --detach -f $WT HEAD >/dev/null 2>&1 || { echo "worktree failed"; exit 1; }
 jq -r --arg id "$prop" 'select(.id==$id) | "Property \(.id): \(.title)\n\nStatement:\n\(.statement)\n\nQuantified over: \(.quantifier.text)\n\nAnchored in: \(.anchors.files|join(", "))\n\nMechanisms:\n" + ([.anchors.mechanism[]|"- \(.name) (\(.where))"]|join("\n"))' /verif/properties.jsonl > $OUT/property.txt
 if [ -n "$focus" ]; then printf '\nFocus for your change (the clause of the statement to break):\n%s\n' "$focus" >> $OUT/property.txt; fi
-sed -e "s#{WT}#$WT#g" -e "s#{OUT}#$OUT#g" /verif/tools/seed_agent_prompt.md
+sed -e "s#{WT}#$WT#g" -e "s#{OUT}#$OUT#g" ${SEED_PROMPT:-/verif/tools/seed_agent_prompt.md}
